@@ -156,6 +156,9 @@ Next == /\ phase[1] = "b" /\ ev' = Boot
               \/ op \in {"bencn", "bsinkn"} /\ \E b \in Bufs, n \in 1..MaxSize + 1 : phase' = <<"c", op, k, b, n>>
               \/ op \in {"cuse", "csink"} /\ \E cs \in SeqsUpTo({b \in Bufs : b[1] <= 3}, MaxChunks) : \E act \in 0..Len(cs) - 1 :
                     cs # <<>> /\ ChunkData(Drop(cs, act)) # <<>> /\ phase' = <<"c", op, k, cs, act>>
+              \* three chunks of at most two octets: empty chunks in front of, between and behind non-empty ones
+              \/ op \in {"cuse", "csink"} /\ \E cs \in {t \in SeqsUpTo({b \in Bufs : b[1] <= 2}, 3) : Len(t) = 3} : \E act \in 0..2 :
+                    ChunkData(Drop(cs, act)) # <<>> /\ phase' = <<"c", op, k, cs, act>>
               \/ op = "msink" /\ \E n \in Lens : phase' = <<"c", op, k, n>>
               \/ op = "mdec" /\ \E n \in 1..MaxSize, d \in {-1, 0, 1}, f \in 1..3, cut \in {0, 1} :
                                    n + d >= 0 /\ phase' = <<"c", op, k, n + d, f, IF cut = 1 THEN Take(Frame(k, Block(n)), Len(Frame(k, Block(n))) - 1) ELSE Frame(k, Block(n))>>
